@@ -66,6 +66,7 @@ def event (st : St) (ev : String) : St :=
                 stopped := !r.1.isPending,
                 seen := remember st.seen (r.2.1.sinks ++ r.2.1.evicted),
                 segs := st.segs.push s!"poll:{evsText r.2.2}->{outCh r.1}[w:{wtxt}]" }
+  else if ev.startsWith "z" then st      -- real time passes: the router has no clock
   else { st with segs := st.segs.push "bad-event" }
 
 def run (t : List String) : String :=
